@@ -69,6 +69,13 @@ rot_composed = st.builds(lambda A, B: A.dot(B), rot_random,
                          st.one_of(rot_signed_perm, rot_special))
 
 
+def _clean_rotation(M):
+    """entries below 1e-100 become exact zeros (see flush_tiny)"""
+    M = np.array(M, dtype=float)
+    M[np.abs(M) < 1e-100] = 0.0
+    return M.tolist()
+
+
 def is_signed_perm(R, tol=0.0):
     R = np.asarray(R)
     return bool(np.all((np.abs(R) <= tol) | (np.abs(np.abs(R) - 1.0) <= tol)))
@@ -78,7 +85,7 @@ def rotations(classes=("identity", "perm", "special", "near", "random", "compose
     m = {"identity": rot_identity, "perm": rot_signed_perm, "special": rot_special,
          "near": rot_near_aligned, "random": rot_random, "composed": rot_composed,
          "tilt": rot_small_tilt}
-    return st.one_of(*[m[c] for c in classes]).map(lambda M: np.asarray(M).tolist())
+    return st.one_of(*[m[c] for c in classes]).map(_clean_rotation)
 
 
 def rotation_class(R):
@@ -144,7 +151,15 @@ _ZERO_COMP = [list(map(float, v)) for v in itertools.product([-1, 0, 1], repeat=
 
 dir_axis = st.sampled_from(_AXES)
 dir_zero_comp = st.sampled_from(_ZERO_COMP)
-dir_random = st.tuples(_unitf(), _unitf(), _unitf()).map(list).filter(
+def flush_tiny(v, rel=1e-100):
+    """Components below rel*|v| become exact zeros: squares of such values
+    underflow in any hypot-style formula; exact zeros and ordinary small
+    values (1e-12) are generated instead (DESIGN 8.3)."""
+    m = max(abs(x) for x in v)
+    return [0.0 if abs(x) < rel * m else float(x) for x in v]
+
+
+dir_random = st.tuples(_unitf(), _unitf(), _unitf()).map(list).map(flush_tiny).filter(
     lambda v: v[0] * v[0] + v[1] * v[1] + v[2] * v[2] > 1e-6)
 
 
